@@ -61,18 +61,38 @@ func (d delivered) String() string { return fmt.Sprintf("@%d%s", d.at, d.s) }
 type c09Cfg struct {
 	minWin, maxWin int64
 	threshold      int64
+	ahead          int // default limiter: how many requests are acquired ahead of the one being completed
 }
 
 var c09Dev = []string{"default(success,2ms)", "drop", "ignore", "below-threshold", "exactly-threshold", "10x-longer", "overlap(in-flight 2)", "gap(one period)", "drop+gap"}
 
 func c09Default(cfg c09Cfg, hist []int) (got, want []delivered, trace string) {
 	vrt.ManualClock = 1_000_000_000
-	rec := &ScriptLimit{Traj: []int{5}}
-	l, err := limiter.NewDefaultLimiter(rec, cfg.minWin, cfg.maxWin, cfg.threshold, 10, strategy.NewSimpleStrategy(5), limit.NoopLimitLogger{}, core.EmptyMetricRegistryInstance)
+	n := len(hist)
+	rec := &ScriptLimit{Traj: []int{64}}
+	l, err := limiter.NewDefaultLimiter(rec, cfg.minWin, cfg.maxWin, cfg.threshold, 10, strategy.NewSimpleStrategy(64), limit.NoopLimitLogger{}, core.EmptyMetricRegistryInstance)
 	if err != nil {
 		panic(err)
 	}
 	ctx := vctx.Background()
+	// cfg.ahead requests are acquired ahead of the one being completed (0 = strictly sequential): a
+	// listener acquired before a window update and completed after it carries a stale snapshot of the
+	// limiter's next update time.
+	toks := make([]core.Listener, n)
+	starts := make([]int64, n)
+	infl := make([]int, n)
+	outstanding, nextAcq := 0, 0
+	acquireUpTo := func(k int) {
+		for nextAcq <= k && nextAcq < n {
+			tok, ok := l.Acquire(ctx)
+			if !ok {
+				panic("acquire refused")
+			}
+			outstanding++
+			toks[nextAcq], starts[nextAcq], infl[nextAcq] = tok, vrt.ManualClock, outstanding
+			nextAcq++
+		}
+	}
 	// reference window
 	refMin, refMax, refN, refDrop := int64(math.MaxInt64), 0, 0, false
 	next := int64(0)
@@ -87,13 +107,17 @@ func c09Default(cfg c09Cfg, hist []int) (got, want []delivered, trace string) {
 		case 2:
 			outcome = 1
 		case 3:
-			dur = cfg.threshold - 1
+			if cfg.ahead == 0 {
+				dur = cfg.threshold - 1
+			}
 		case 4:
-			dur = cfg.threshold
+			if cfg.ahead == 0 {
+				dur = cfg.threshold
+			}
 		case 5:
 			dur = 20 * int64(time.Millisecond)
 		case 6:
-			overlap = true
+			overlap = cfg.ahead == 0
 		case 7:
 			vrt.ManualClock += cfg.maxWin
 		case 8:
@@ -103,25 +127,23 @@ func c09Default(cfg c09Cfg, hist []int) (got, want []delivered, trace string) {
 		var extra core.Listener
 		if overlap {
 			extra, _ = l.Acquire(ctx)
+			outstanding++
 		}
-		tok, ok := l.Acquire(ctx)
-		if !ok {
-			panic("acquire refused")
-		}
-		inflight := 1
-		if overlap {
-			inflight = 2
-		}
+		acquireUpTo(i + cfg.ahead)
+		tok := toks[i]
 		vrt.ManualClock += dur
 		end := vrt.ManualClock
+		rtt := end - starts[i]
 		before := len(rec.Samples)
 		complete(tok, outcome)
+		outstanding--
 		for _, s := range rec.Samples[before:] {
 			got = append(got, delivered{i, s})
 		}
 		if extra != nil {
 			b2 := len(rec.Samples)
 			extra.OnIgnore()
+			outstanding--
 			for _, s := range rec.Samples[b2:] {
 				got = append(got, delivered{i, s})
 			}
@@ -130,20 +152,20 @@ func c09Default(cfg c09Cfg, hist []int) (got, want []delivered, trace string) {
 		added := false
 		switch outcome {
 		case 0:
-			if dur >= cfg.threshold {
-				if dur < refMin {
-					refMin = dur
+			if rtt >= cfg.threshold {
+				if rtt < refMin {
+					refMin = rtt
 				}
-				if inflight > refMax {
-					refMax = inflight
+				if infl[i] > refMax {
+					refMax = infl[i]
 				}
 				refN++
 				added = true
 			}
 		case 2:
 			refDrop = true
-			if inflight > refMax {
-				refMax = inflight
+			if infl[i] > refMax {
+				refMax = infl[i]
 			}
 			added = true
 		}
@@ -284,7 +306,7 @@ func c09Compare(kind string, devNames []string, hist []int, got, want []delivere
 }
 
 func c09Run(c *Ctx, name string, cfg c09Cfg, devNames []string, db int, run func(c09Cfg, []int) ([]delivered, []delivered, string)) {
-	params := fmt.Sprintf("minWindow=%dms maxWindow=%dms threshold=%dns windowSize=10 history=26 deviations<=%d of %v", cfg.minWin/1e6, cfg.maxWin/1e6, cfg.threshold, db, devNames[1:])
+	params := fmt.Sprintf("minWindow=%dms maxWindow=%dms threshold=%dns windowSize=10 acquired-ahead=%d history=26 deviations<=%d of %v", cfg.minWin/1e6, cfg.maxWin/1e6, cfg.threshold, cfg.ahead, db, devNames[1:])
 	if c.replay != nil {
 		if c.replay.Scenario == name && c.replay.Params == params {
 			got, want, _ := run(cfg, c.replay.Choices)
@@ -344,12 +366,17 @@ func c09Run(c *Ctx, name string, cfg c09Cfg, devNames []string, db int, run func
 
 func runC09(c *Ctx) {
 	db := c.Pick(2, 3)
-	c09Run(c, "C09/default-limiter", c09Cfg{10e6, 20e6, 1}, c09Dev, 3, c09Default)
-	c09Run(c, "C09/windowed-limit", c09Cfg{100e6, 200e6, 1}, c09WDev, 3, c09Windowed)
-	for _, cfg := range []c09Cfg{{10e6, 10e6, 1}, {10e6, 40e6, 1}, {10e6, 10e6, 1e6}, {10e6, 40e6, 1e6}} {
+	c09Run(c, "C09/default-limiter", c09Cfg{10e6, 20e6, 1, 0}, c09Dev, 3, c09Default)
+	c09Run(c, "C09/windowed-limit", c09Cfg{100e6, 200e6, 1, 0}, c09WDev, 3, c09Windowed)
+	for _, cfg := range []c09Cfg{{10e6, 10e6, 1, 0}, {10e6, 40e6, 1, 0}, {10e6, 10e6, 1e6, 0}, {10e6, 40e6, 1e6, 0}} {
 		c09Run(c, "C09/default-limiter", cfg, c09Dev, db, c09Default)
+		// pipelined and fully batched acquisition: listeners outlive window updates
+		for _, ahead := range []int{5, 12, 25} {
+			cfg.ahead = ahead
+			c09Run(c, "C09/default-limiter", cfg, c09Dev, db, c09Default)
+		}
 	}
-	for _, cfg := range []c09Cfg{{100e6, 100e6, 1}, {100e6, 400e6, 1}, {100e6, 100e6, 1e6}, {100e6, 400e6, 30e6}} {
+	for _, cfg := range []c09Cfg{{100e6, 100e6, 1, 0}, {100e6, 400e6, 1, 0}, {100e6, 100e6, 1e6, 0}, {100e6, 400e6, 30e6, 0}} {
 		c09Run(c, "C09/windowed-limit", cfg, c09WDev, db, c09Windowed)
 	}
 }
